@@ -1097,3 +1097,10 @@ mod test {
         assert!(size_of::<SentPacket>() <= 128);
     }
 }
+
+#[cfg(feature = "__verif-hooks")]
+#[allow(missing_docs, unreachable_pub, dead_code, unused_imports, unused_qualifications)]
+pub mod verif {
+    use super::*;
+    include!(concat!(env!("QUINN_VERIF_HOOKS"), "/proto/connection/spaces.rs"));
+}
